@@ -62,6 +62,8 @@ CONSTANTS
     MaxPushes, MaxItems, MaxFaults, MaxRetries, MaxClears, MaxLost, MaxBad, MaxQueries,
     CacheSetBeforeInsert, CacheKeyIgnoresType,
     ReaderFiltersType,
+    Guided,                \* TRUE (simulation only): the kind of the next step is drawn first, so that retries, cache
+                           \* clears and queries are as likely as pushes although pushes have far more instances
     ExportView             \* TRUE: the variables view / blame carry every answer (history export for the replay)
 
 VARIABLES
@@ -79,10 +81,11 @@ VARIABLES
     today,      \* current day: a client pushes data of today or earlier
     n,          \* budgets used
     last,       \* what the client saw in the last step
+    turn,       \* "any" (every step enabled) or, when Guided, "choose" / the kind drawn for the next step
     view, blame \* export (constant <<>> unless ExportView)
 
 dbvars == <<series, samples, spans, attrs, profs>>
-vars == <<cache, poison, series, samples, spans, attrs, profs, landed, open, acked, ackedRetry, today, n, last, view, blame>>
+vars == <<cache, poison, series, samples, spans, attrs, profs, landed, open, acked, ackedRetry, today, n, last, turn, view, blame>>
 
 ----------------------------------------------------------------------------
 Day(t) == t \div SlotsPerDay
@@ -238,12 +241,25 @@ Init ==
     /\ open = {} /\ acked = {} /\ ackedRetry = {} /\ today = 0
     /\ n = [push |-> 0, fault |-> 0, retry |-> 0, clear |-> 0, lost |-> 0, bad |-> 0, query |-> 0]
     /\ last = Last("init", "", "", 0, <<0, 0>>, NoAns)
+    /\ turn = IF Guided THEN "choose" ELSE "any"
     /\ view = View /\ blame = Blame
+
+Turn(kind) == turn \in {"any", kind} /\ turn' = (IF Guided THEN "choose" ELSE "any")
+CanDo(kind) ==
+    CASE kind = "push" -> n.push < MaxPushes
+      [] kind = "retry" -> n.retry < MaxRetries /\ open # {}
+      [] kind = "clear" -> n.clear < MaxClears /\ cache # {}
+      [] kind = "rollover" -> today < MaxDay
+      [] kind = "query" -> n.query < MaxQueries
+Choose(kind) ==
+    /\ turn = "choose" /\ CanDo(kind) /\ turn' = kind
+    /\ UNCHANGED <<cache, poison, series, samples, spans, attrs, profs, landed, open, acked, ackedRetry, today, n, last, view, blame>>
 
 Status(sig, items, fail, bad, lost) == IF lost THEN "none" ELSE IF Ok(sig, items, fail, bad) THEN "2xx" ELSE "err"
 
 \* one request.  fail: tables whose INSERT fails; bad: malformed tail; lost: the client never sees the answer
 Push(sig, items, fail, bad, lost) ==
+    /\ Turn("push")
     /\ n.push < MaxPushes
     /\ sig \in Signals /\ items \in Bodies(sig) /\ fail \subseteq Tables(sig)
     /\ \A it \in items : Day(it.t) <= today
@@ -260,15 +276,18 @@ Push(sig, items, fail, bad, lost) ==
     /\ view' = View' /\ blame' = Blame'
 
 \* the client sends the same items again (after a parse error: the corrected body)
-Retry(o, fail) ==
+Retry(sig, items, fail) ==
+    /\ Turn("retry")
     /\ n.retry < MaxRetries
-    /\ o \in open /\ fail \subseteq Tables(o.sig)
+    /\ \E o \in open : o.sig = sig /\ o.items = items
+    /\ fail \subseteq Tables(sig)
     /\ fail # {} => n.fault < MaxFaults
-    /\ Ingest(o.sig, o.items, fail, FALSE)
-    /\ LET st == Status(o.sig, o.items, fail, FALSE, FALSE)
-       IN /\ acked' = IF st = "2xx" THEN acked \cup o.items ELSE acked
-          /\ ackedRetry' = IF st = "2xx" THEN ackedRetry \cup o.items ELSE ackedRetry
-          /\ open' = IF st = "2xx" THEN open \ {o} ELSE (open \ {o}) \cup {[o EXCEPT !.status = "err"]}
+    /\ Ingest(sig, items, fail, FALSE)
+    /\ LET st == Status(sig, items, fail, FALSE, FALSE)
+           rest == {o \in open : ~(o.sig = sig /\ o.items = items)}
+       IN /\ acked' = IF st = "2xx" THEN acked \cup items ELSE acked
+          /\ ackedRetry' = IF st = "2xx" THEN ackedRetry \cup items ELSE ackedRetry
+          /\ open' = IF st = "2xx" THEN rest ELSE rest \cup {[sig |-> sig, items |-> items, status |-> "err"]}
           /\ last' = Last("retry", st, "", 0, <<0, 0>>, NoAns)
     /\ n' = [n EXCEPT !.retry = @ + 1, !.fault = @ + (IF fail # {} THEN 1 ELSE 0)]
     /\ UNCHANGED today
@@ -276,6 +295,7 @@ Retry(o, fail) ==
 
 \* numbercache: the whole cache is dropped every 30 minutes
 CacheClear ==
+    /\ Turn("clear")
     /\ n.clear < MaxClears /\ cache # {}
     /\ cache' = {} /\ poison' = {}
     /\ n' = [n EXCEPT !.clear = @ + 1]
@@ -284,6 +304,7 @@ CacheClear ==
     /\ view' = View' /\ blame' = Blame'
 
 Rollover ==
+    /\ Turn("rollover")
     /\ today < MaxDay
     /\ today' = today + 1
     /\ last' = Last("rollover", "", "", 0, <<0, 0>>, NoAns)
@@ -291,6 +312,7 @@ Rollover ==
     /\ view' = View' /\ blame' = Blame'
 
 Query(ep, k, w) ==
+    /\ Turn("query")
     /\ n.query < MaxQueries
     /\ ep \in EPs /\ k \in Keys /\ w \in Windows
     /\ last' = Last("query", "", ep, k, w, Answer(ep, k, w))
@@ -299,10 +321,11 @@ Query(ep, k, w) ==
 
 Next ==
     \/ \E sig \in Signals : \E items \in Bodies(sig) : \E fail \in SUBSET Tables(sig) : \E bad, lost \in BOOLEAN : Push(sig, items, fail, bad, lost)
-    \/ \E o \in open : \E fail \in SUBSET Tables(o.sig) : Retry(o, fail)
+    \/ \E sig \in Signals : \E items \in Bodies(sig) : \E fail \in SUBSET Tables(sig) : Retry(sig, items, fail)
     \/ CacheClear
     \/ Rollover
     \/ \E ep \in EPs : \E k \in Keys : \E w \in Windows : Query(ep, k, w)
+    \/ \E kind \in {"push", "retry", "clear", "rollover", "query"} : Choose(kind)
 
 Spec == Init /\ [][Next]_vars
 
